@@ -174,6 +174,31 @@ def defect_repaired(case, ta_lines, tb_lines):
     return all(l not in tb_lines for l in direct) and any(l in ta_lines for l in direct)
 
 
+def classify(prop, results, known, known_hit):
+    """(cases with a correspondence mismatch, cases with a property failure), known findings taken out"""
+    tierA, tierB = [], []
+    for c, ta, tb in results:
+        # a failure on data that descends from a listed known finding is that finding, nothing new -- provided
+        # the implementation does there exactly what the model of the defect does (the model mirrors D1: Tier A
+        # holds on the line). A line where it does something else again is a different violation and is reported.
+        tb2 = []
+        ta_lines = {ln for ln, ks in ta}
+        tb_lines = {ln for ln, fs in tb}
+        repaired = defect_repaired(c, ta_lines, tb_lines) if (ta and tb) else False
+        for ln, fs in tb:
+            k = known_for_line(prop, c, ln, known)
+            if k and ln not in ta_lines: known_hit[k["id"] + " " + k["what"]] += 1
+            elif k and repaired: pass   # see defect_repaired: left to the correspondence report
+            else: tb2.append((ln, fs))
+        # correspondence mismatches count everywhere: where the code leaves the model of the recorded defect without
+        # failing the specification (the defect was repaired?) the theorems about the current conversion no longer
+        # speak about the code, which is reported as such (no-failing-input-found)
+        ta2 = list(ta)
+        if ta2: tierA.append((c, ta2, tb2))
+        if tb2: tierB.append((c, ta2, tb2))
+    return tierA, tierB
+
+
 def write_replay(prop, tag, case, ta, tb, impl, model, note=""):
     os.makedirs(common.REPLAYS, exist_ok=True)
     path = os.path.join(common.REPLAYS, "%s_%s_%s.json" % (prop, tag, case["id"] if case else "gate"))
@@ -298,26 +323,28 @@ def check(prop, tier, seed):
             violations += 1
     known = load_known()
     known_hit = collections.Counter()
-    tierA, tierB = [], []
-    for c, ta, tb in results:
-        # a failure on data that descends from a listed known finding is that finding, nothing new -- provided
-        # the implementation does there exactly what the model of the defect does (the model mirrors D1: Tier A
-        # holds on the line). A line where it does something else again is a different violation and is reported.
-        tb2, ta2 = [], []
-        ta_lines = {ln for ln, ks in ta}
-        tb_lines = {ln for ln, fs in tb}
-        repaired = defect_repaired(c, ta_lines, tb_lines) if (ta and tb) else False
-        for ln, fs in tb:
-            k = known_for_line(prop, c, ln, known)
-            if k and ln not in ta_lines: known_hit[k["id"] + " " + k["what"]] += 1
-            elif k and repaired: pass   # see defect_repaired: left to the correspondence report below
-            else: tb2.append((ln, fs))
-        # correspondence mismatches count everywhere: where the code leaves the model of the recorded defect without
-        # failing the specification (the defect was repaired?) the theorems about the current conversion no longer
-        # speak about the code, which is reported as such (no-failing-input-found)
-        ta2 = list(ta)
-        if ta2: tierA.append((c, ta2, tb2))
-        if tb2: tierB.append((c, ta2, tb2))
+    tierA, tierB = classify(prop, results, known, known_hit)
+    searched = None
+    if tierA and not tierB and tier == "quick" and os.environ.get("VERIF_NO_SEARCH") != "1":
+        # the correspondence broke and no generated case violates the property: SEARCH for a failing input with the
+        # thorough generators and two further random streams before settling for "no-failing-input-found"
+        t_search = time.time()
+        more = []
+        seen_l = {tuple(c["lines"]) for c in cases}
+        for k_, sd in enumerate((seed, seed + 1, seed + 2)):
+            for c in props.GENERATORS[prop]("thorough", random.Random(sd))["cases"]:
+                if tuple(c["lines"]) in seen_l: continue
+                seen_l.add(tuple(c["lines"])); c["id"] = "%sx%d" % (c["id"], k_); more.append(c)
+        if prop in props.RENAMED_PROPS:
+            more += [dict(c, id=c["id"] + "x") for c in props.renamed_cases(prop, "thorough", seed + 1)]
+        os.environ["VERIF_TIER_EFFECTIVE"] = "thorough"
+        res2, impl2, model2, problems2 = run_cases(prop, more, "--twice" if prop == "C20" else "")
+        os.environ["VERIF_TIER_EFFECTIVE"] = "quick"
+        tA2, tB2 = classify(prop, res2, known, known_hit)
+        searched = {"cases": len(more), "failing_inputs_found": len(tB2), "wall_s": round(time.time() - t_search, 1)}
+        if tB2:
+            tierB = tB2; impl.update(impl2); model.update(model2)
+    coverage_search = searched
     reported = 0
     for c, ta, tb in tierB:
         if reported < 5:
@@ -331,7 +358,7 @@ def check(prop, tier, seed):
         # the code no longer does what the model says, and no generated case violates the property
         c, ta, tb = tierA[0]
         path = write_replay(prop, "correspondence", c, ta, tb, impl, model,
-                            note="correspondence impl == model broke on %d cases; the theorems %s no longer speak about this code; no case violating the property was found among %d%s" % (len(tierA), ", ".join(theorems), len(cases),
+                            note="correspondence impl == model broke on %d cases; the theorems %s no longer speak about this code; no case violating the property was found among %d%s%s" % (len(tierA), ", ".join(theorems), len(cases), (" nor among the %d further cases of the search (thorough generators, three random streams)" % searched["cases"]) if searched else "",
                                   "; the mismatching lines work on data of known finding(s) %s: if that defect was repaired in the source, the model of the defect (and its entry in known_findings.json) is what has to change" % ",".join(sorted({k["id"] for c_, ta_, tb_ in tierA for ln_, ks_ in ta_ for k in [known_for_line(prop, c_, ln_, known)] if k})) if any(known_for_line(prop, c_, ln_, known) for c_, ta_, tb_ in tierA for ln_, ks_ in ta_) else ""))
         print("VIOLATION property=%s replay=%s no-failing-input-found" % (prop, path))
         violations += 1
@@ -341,6 +368,7 @@ def check(prop, tier, seed):
         violations += 1
 
     distinct = set(c["key"] for c in cases if c.get("nontrivial"))
+    if coverage_search: coverage["search_for_failing_input"] = coverage_search
     coverage.update({
         "evaluations": len(cases), "distinct_nontrivial": len(distinct),
         "samples": [c["lines"][:10] for c in cases[:: max(1, len(cases) // 4)][:4]],
